@@ -25,6 +25,9 @@ pub enum Op {
 #[derive(Serialize, Deserialize, Debug, Clone)]
 pub struct Case {
     pub ops: Vec<Op>,
+    /// replay of the known finding only: report the tolerated situation
+    #[serde(default)]
+    pub probe_one_call_stale_parser: bool,
 }
 
 const GRAMMARS: &[&str] = &[
@@ -46,6 +49,10 @@ const LEXERS: &[&str] = &[
     "%%\n[0-9]+ \"INT\"\n\\+ \"+\"\n- \"-\"\n\\( \"(\"\n\\) \")\"\n[ \\t\\n\\r]+ ;\n",
     "%%\n[0-9a-f]+ 'INT'\n\\+ '+'\n- '-'\n\\( '('\n\\) ')'\n[ ]+ ;\n",
     "%grmtools{case_insensitive}\n%%\n[0-9]+ 'INT'\n\\+ '+'\n- '-'\n\\( '('\n\\) ')'\n[ \\t\\n]+ ;\n",
+    // lacks '-' and the parentheses some grammars use
+    "%%\n[0-9]+ 'INT'\n\\+ '+'\n[ \\t\\n]+ ;\n",
+    // lacks the parentheses, has a token no grammar uses
+    "%%\n[0-9]+ 'INT'\n\\+ '+'\n- '-'\n\\* 'STAR'\n[ \\t\\n]+ ;\n",
 ];
 const BROKEN_LEXER: &str = "%%\n[0-9+ 'INT'\n";
 
@@ -62,6 +69,9 @@ const OPTIONS: &[(&str, usize)] = &[
     ("show_warnings", 2),
     ("lex_case_insensitive", 3),
     ("lex_dot_matches_new_line", 3),
+    ("strict_terms_in_lexer", 2),
+    ("strict_tokens_in_parser", 2),
+    ("combined", 2),
 ];
 
 #[derive(Clone, PartialEq, Debug)]
@@ -128,6 +138,9 @@ impl Settings {
             1 => Some(false),
             _ => Some(true),
         };
+        spec.strict_terms_in_lexer = Some(self.get("strict_terms_in_lexer") == 1);
+        spec.strict_tokens_in_parser = Some(self.get("strict_tokens_in_parser") == 1);
+        spec.combined = Some(self.get("combined") == 1);
     }
     /// settings that are recorded in the parser's cache or change the parser module
     fn parser_relevant(&self) -> Vec<usize> {
@@ -180,7 +193,7 @@ impl Prop for C18 {
         60
     }
     fn cases(&self, tier: Tier) -> u32 {
-        tier.pick(3_200, 60_000)
+        tier.pick(12_000, 150_000)
     }
     fn watchdog_ms(&self) -> u64 {
         120_000
@@ -213,10 +226,10 @@ impl Prop for C18 {
         if ops.last() != Some(&Op::Build) {
             ops.push(Op::Build);
         }
-        serde_json::to_value(Case { ops }).unwrap()
+        serde_json::to_value(Case { ops, probe_one_call_stale_parser: false }).unwrap()
     }
     fn rule(&self) -> String {
-        "Histories of 1-8 operations (each possibly followed by Build, always ending in Build) over {EditGrammar(6 variants), EditLexer(4 variants), Touch, SetOption(12 builder options incl. mod names, visibility, edition, recoverer, yacckind, serialisation format, error_on_conflicts, warnings flags, lexer flags), BreakGrammar(4 kinds: syntax error, unknown rule, broken %grmtools section, unexpected conflicts), BreakLexer, Build}. Every Build runs the real CTParserBuilder/CTLexerBuilder in a process of its own; file times come from a logical clock. Oracle after every Build: successful => parser and lexer modules byte-identical (timestamp masked) to a clean build of the same sources/settings into an empty directory; nothing changed since the last successful build => regenerated()==false and files untouched; grammar text or a parser-relevant option changed => regenerated()==true; failed => no generated file from the earlier sources left at the output path. Evaluation = one Build step. Non-trivial: a change between two builds or a failing build after a successful one; distinct by hash(history).".into()
+        "Histories of 1-8 operations (each possibly followed by Build, always ending in Build) over {EditGrammar(6 variants), EditLexer(6 variants, two lacking tokens some grammars use), Touch, SetOption(15 builder options incl. mod names, visibility, edition, recoverer, yacckind, serialisation format, error_on_conflicts, warnings flags, lexer flags, strictness about tokens missing from the lexer / from the parser, and the flow: two builders in turn or the one-call CTLexerBuilder::lrpar_config), BreakGrammar(4 kinds: syntax error, unknown rule, broken %grmtools section, unexpected conflicts), BreakLexer, Build}. Every Build runs the real CTParserBuilder/CTLexerBuilder in a process of its own; file times come from a logical clock. Oracle after every Build: successful => parser and lexer modules byte-identical (timestamp masked) to a clean build of the same sources/settings into an empty directory; nothing changed since the last successful build => regenerated()==false and files untouched; grammar text or a parser-relevant option changed => regenerated()==true; failed => no generated file from the earlier sources left at the output path. Evaluation = one Build step. Non-trivial: a change between two builds or a failing build after a successful one; distinct by hash(history).".into()
     }
     fn assumptions(&self) -> Vec<String> {
         vec!["a Touch (same bytes, newer time) may or may not regenerate".into()]
@@ -347,7 +360,7 @@ impl Prop for C18 {
                         let _ = std::fs::remove_dir_all(&cdir);
                         if unchanged && !touched {
                             o.class("unchanged-rebuild");
-                            if r.regenerated != Some(false) {
+                            if !r.combined && r.regenerated != Some(false) {
                                 o.fail("wrong", "C18/regenerated-although-unchanged", ctx("nothing changed since the last successful build but regenerated() is true"));
                                 cleanup(&dir);
                                 return o;
@@ -362,7 +375,7 @@ impl Prop for C18 {
                             if *g != gtext || s.parser_relevant() != settings.parser_relevant() {
                                 o.class("change-between-builds");
                                 nontrivial = true;
-                                if r.regenerated != Some(true) {
+                                if !r.combined && r.regenerated != Some(true) {
                                     o.fail("wrong", "C18/not-regenerated-after-change", ctx("the grammar or a recorded option changed but regenerated() is false"));
                                     cleanup(&dir);
                                     return o;
@@ -387,7 +400,56 @@ impl Prop for C18 {
                             let _ = p;
                             o.class("build-panicked");
                         }
-                        if !r.parser_ok && po.exists() {
+                        if r.combined {
+                            o.class("combined-build-failed");
+                            if lo.exists() && std::fs::read(&lo).ok() == before_l && before_l.is_some() {
+                                o.fail("wrong", "C18/stale-lexer-after-failed-build", ctx("the one-call build failed but the previous lexer module is still at the output path"));
+                                cleanup(&dir);
+                                return o;
+                            }
+                            if po.exists() {
+                                // what a clean build of the parser half gives: nothing (then no
+                                // module may be here) or the module that must be here
+                                let cdir = dir.join(format!("pclean{step}"));
+                                std::fs::create_dir_all(&cdir).unwrap();
+                                let mut cspec = spec.clone();
+                                cspec.combined = Some(false);
+                                cspec.strict_terms_in_lexer = Some(false);
+                                cspec.strict_tokens_in_parser = Some(false);
+                                cspec.parser_out = cdir.join("calc.y.rs").to_string_lossy().to_string();
+                                cspec.lexer_out = cdir.join("calc.l.rs").to_string_lossy().to_string();
+                                let cr = run_ctstep(&cspec);
+                                let clean_p = std::fs::read_to_string(&cspec.parser_out).ok();
+                                let _ = std::fs::remove_dir_all(&cdir);
+                                let cr = match cr {
+                                    Ok(cr) => cr,
+                                    Err(e) => {
+                                        o.fail("harness", "C18/harness", e);
+                                        cleanup(&dir);
+                                        return o;
+                                    }
+                                };
+                                let here = std::fs::read_to_string(&po).unwrap_or_default();
+                                let stale = if cr.parser_ok { clean_p.map(|c| mask_parser(&c)) != Some(mask_parser(&here)) } else { true };
+                                if stale {
+                                    // the lexer is parsed before the parser builder is even
+                                    // configured: with an invalid .l file the parser module of
+                                    // the earlier grammar stays (known finding, see DESIGN.md)
+                                    let lexer_invalid = ltext == BROKEN_LEXER;
+                                    if lexer_invalid && !case.probe_one_call_stale_parser {
+                                        o.class("known:one-call-lexer-invalid-leaves-parser-module");
+                                    } else {
+                                        o.fail(
+                                            "wrong",
+                                            if lexer_invalid { "C18/stale-parser-after-failed-build/one-call-lexer-invalid" } else { "C18/stale-parser-after-failed-build" },
+                                            ctx("the one-call build failed but the parser module of an earlier grammar is still at the output path"),
+                                        );
+                                        cleanup(&dir);
+                                        return o;
+                                    }
+                                }
+                            }
+                        } else if !r.parser_ok && po.exists() {
                             let stale = std::fs::read(&po).ok() == before_p && before_p.is_some();
                             o.fail(
                                 "wrong",
